@@ -24,6 +24,7 @@ def run(chk: Check):
            describe=lambda r: str(r.trace["ev"][r.line - 1])[:400])
 
     var_wiring(chk, rng)
+    chains(chk, rng)
 
 
 VW_MC = """CONSTANTS NV = 2 NN = {nn} Kind <- Kind{nn} Names = {names} Atomic = {atomic}
@@ -81,3 +82,23 @@ def var_wiring(chk, rng):
     chk.extra["varwiring_tlc_behaviours_replayed"] = len(rp)
     chk.tv("Trace_VarWiring.tla", rp, tag="var_wiring_replay", cfg_extra=cfg3, keyfn=lambda r: f"var_wiring_replay:{r.conjunct}",
            describe=lambda r: str(r.trace["ev"][r.line - 1])[:400])
+
+
+CH_MC = """CONSTANTS ApplyThinning = {at} MaxEpochs = 2 MaxItems = {mi} Thins = {{1,2,3}} Sizes = {{0,1,2,3,5}}
+SPECIFICATION Spec
+INVARIANT ThinningIndependentOfChunking
+INVARIANT NoneIffNothingHeld
+"""
+
+
+def chains(chk, rng):
+    """Chain.tla: ListEpochChain thinning is independent of the chunking; EpochChainManager combination."""
+    for at in ("TRUE", "FALSE"):
+        chk.mc("MC_Chain.tla", CH_MC.format(at=at, mi=7 if chk.quick else 10), tag=f"chain-thinning-{at}",
+               expect_actions=["AdvanceEpoch", "AppendChunk", "DoGet"],
+               what="2 epochs, thinning 1..3, every sequence of chunk sizes {0,1,2,3,5}: stored = items th, 2th, ...")
+    for at in (True, False):
+        trs = [D.chain_trace(rng, at, 30) for _ in range(60 if chk.quick else 1500)]
+        cfg = "CONSTANTS ApplyThinning = %s MaxEpochs = 99 MaxItems = 100000 Thins = {} Sizes = {}\n" % ("TRUE" if at else "FALSE")
+        chk.tv("Trace_Chain.tla", trs, tag=f"chain_{at}", cfg_extra=cfg, keyfn=lambda r: f"chain:{r.conjunct}",
+               describe=lambda r: str(r.trace["ev"][r.line - 1])[:300])
